@@ -111,6 +111,25 @@ BUILTINS = {'dict', 'range', 'enumerate', 'str', 'int', 'len', 'abs', 'isinstanc
 PURE_MODULES = {'bisect', 'math', 'operator', 'string'}
 
 
+class _ChainEnv(dict):
+    """Local environment of a nested function: own names first, then the (live) environment of the enclosing call."""
+
+    def __init__(self, outer):
+        super().__init__()
+        self._outer = outer
+
+    def __contains__(self, k):
+        return dict.__contains__(self, k) or k in self._outer
+
+    def __getitem__(self, k):
+        if dict.__contains__(self, k):
+            return dict.__getitem__(self, k)
+        return self._outer[k]
+
+    def get(self, k, d=None):
+        return self[k] if k in self else d
+
+
 class Folder:
     def __init__(self, repo: Repo, max_steps: int = 20000, allow_loops: bool = False):
         self.repo = repo
@@ -328,6 +347,9 @@ class Folder:
                 self.on_stmt(st, env, mod, ci)
             if isinstance(st, ast.With) and self.allow_loops:
                 self._with(st, 0, env, mod, ci)
+            elif isinstance(st, ast.FunctionDef):
+                # a nested function: a closure over the live environment of the enclosing call (late binding, as in Python)
+                env[st.name] = ('closure', st, env, mod, ci)
             elif isinstance(st, ast.Return):
                 raise _Return(self._eval(st.value, env, mod, ci) if st.value is not None else None)
             elif isinstance(st, ast.If):
@@ -761,7 +783,31 @@ class Folder:
         a = self._attr(obj, name)
         return a
 
+    def _call_closure(self, f, args, kw):
+        _, node, cenv, cmod, cci = f
+        if node.args.vararg or node.args.kwarg or node.args.kwonlyargs:
+            raise Unsupported('nested function with */** parameters')
+        env2 = _ChainEnv(cenv)
+        names = [a.arg for a in node.args.args]
+        dmap = dict(zip(reversed(names), reversed(node.args.defaults)))
+        for i, prm in enumerate(names):
+            if i < len(args):
+                env2[prm] = args[i]
+            elif prm in kw:
+                env2[prm] = kw[prm]
+            elif prm in dmap:
+                env2[prm] = self._eval(dmap[prm], cenv, cmod, cci)
+            else:
+                raise Unsupported(f'missing argument {prm} for nested function {node.name}')
+        try:
+            self._block(node.body, env2, cmod, cci)
+        except _Return as r:
+            return r.v
+        return None
+
     def _as_callable(self, v):
+        if isinstance(v, tuple) and len(v) == 5 and v[0] == 'closure':
+            return lambda *a, **k: self._call_closure(v, list(a), dict(k))
         if isinstance(v, tuple) and len(v) == 5 and v[0] == 'lambda':
             return lambda *a: self._call_value(v, list(a))
         return v
@@ -814,6 +860,8 @@ class Folder:
                 raise
             except Exception as ex:  # noqa
                 raise FoldRaise(type(ex).__name__, str(ex))
+        if isinstance(f, tuple) and f[0] == 'closure':
+            return self._call_closure(f, args, kw)
         if isinstance(f, tuple) and f[0] == 'lambda':
             _, node, cenv, cmod, cci = f
             env2 = dict(cenv)
